@@ -1035,6 +1035,7 @@ func c10Tags(c *Ctx) {
 func c10IDs(c *Ctx) {
 	P := c.P
 	n := 0
+	counterFields := map[*types.Var]bool{}
 	for _, t := range []struct{ rel, typ string }{{"components/providers/base", "ProviderBase"}, {"components/providers/grpc", "Provider"}} {
 		pk := P.Pkg(t.rel)
 		if pk == nil {
@@ -1047,16 +1048,26 @@ func c10IDs(c *Ctx) {
 			continue
 		}
 		st := tn.Type().Underlying().(*types.Struct)
+		// the id counter: the field of atomic integer type (whatever it is called; by name if there are several)
 		var fld *types.Var
+		var atomics []*types.Var
 		for i := 0; i < st.NumFields(); i++ {
-			if st.Field(i).Name() == "idCounter" {
-				fld = st.Field(i)
+			f := st.Field(i)
+			if p, nm := NamedOf(f.Type()); (p == "sync/atomic" || p == "go.uber.org/atomic") && (nm == "Uint64" || nm == "Int64" || nm == "Uint32" || nm == "Int32") {
+				atomics = append(atomics, f)
+			}
+			if f.Name() == "idCounter" {
+				fld = f
 			}
 		}
+		if fld == nil && len(atomics) == 1 {
+			fld = atomics[0]
+		}
 		if fld == nil {
-			c.Anchor("O10.6", t.rel+"."+t.typ+".idCounter")
+			c.Anchor("O10.6", t.rel+"."+t.typ+": the atomic id counter field")
 			continue
 		}
+		counterFields[fld] = true
 		p, nm := NamedOf(fld.Type())
 		c.Check((p == "sync/atomic" || p == "go.uber.org/atomic") && (nm == "Uint64" || nm == "Int64"), "O10.6", t.rel+"."+t.typ+".idCounter:atomic-type", fld.Pos(), "the id counter must be an atomic integer ("+p+"."+nm+")")
 		// every use: method call Add(1) (or Inc) whose result is used; Load allowed; nothing else
@@ -1107,7 +1118,7 @@ func c10IDs(c *Ctx) {
 			}
 			found = true
 			arg := CC(in).Args[argIdx]
-			ok := DerivesOnly(arg, false, func(v ssa.Value) bool {
+			isIncr := func(v ssa.Value) bool {
 				cl, _ := CallOfValue(v)
 				if cl == nil {
 					return false
@@ -1116,12 +1127,21 @@ func c10IDs(c *Ctx) {
 					return true
 				}
 				f := CalleeObj(&cl.Call)
-				if f != nil && f.Name() == "Add" && len(cl.Call.Args) == 2 {
+				if f != nil && (f.Name() == "Add" && len(cl.Call.Args) == 2 || f.Name() == "Inc") {
 					fv, _ := FieldOf(cl.Call.Args[0])
-					return fv != nil && fv.Name() == "idCounter"
+					return fv != nil && counterFields[fv]
 				}
 				return false
-			})
+			}
+			// the increment itself, or a helper of the package that returns it (nextID())
+			ok := true
+			for _, r := range Roots(arg, false) {
+				for _, t := range ThroughReturns(r) {
+					if !DerivesOnly(t, false, isIncr) {
+						ok = false
+					}
+				}
+			}
 			c.Check(ok, "O10.6", fk(fn)+":id-from-the-atomic-counter", in.Pos(), "the id given to the ammo must be the result of the provider's atomic counter increment")
 		})
 		if !found {
